@@ -15,6 +15,31 @@ MODULES = {
 }
 
 
+def generic_replay(mod, ctx, path):
+    """--replay <file>: print the recorded failing input/history, re-run the check of the property against the
+    current tree (evidence untouched) and report whether the recorded violation (same clause, same action) is
+    still there: exit 1 if it reproduces, 0 if it does not."""
+    import json
+    rec = json.load(open(path))
+    show = {k: v for k, v in rec.items() if k not in ('instance',)}
+    print('REPLAY %s' % path)
+    print(json.dumps(show, indent=1, sort_keys=True, default=str)[:6000])
+    ctx.replaying = True
+    ctx.known = []                     # a replay shows the raw verdict, known or not
+    ctx.max_report = 0                 # do not write new replay files
+    mod.run(ctx)
+    same = [v for v in ctx.violations if v.get('clause') == rec.get('clause') and v.get('action') == rec.get('action')]
+    ctx.abort()
+    if same:
+        v = same[0]
+        print('REPRODUCED property=%s clause=%s action=%s (%d matching violations in this run)' % (ctx.prop, rec.get('clause'), rec.get('action'), len(same)))
+        print(json.dumps({k: v[k] for k in v if k in ('family', 'expected', 'observed', 'step', 'detail', 'what')}, default=str)[:1500])
+        print('VIOLATION property=%s replay=%s' % (ctx.prop, path))
+        return 1
+    print('NOT-REPRODUCED property=%s clause=%s action=%s: the recorded violation does not occur on the current tree' % (ctx.prop, rec.get('clause'), rec.get('action')))
+    return 0
+
+
 def main():
     ap = argparse.ArgumentParser()
     ap.add_argument('prop')
@@ -30,9 +55,11 @@ def main():
     ctx = Ctx(a.prop, a.tier, seed, level=getattr(mod, 'LEVEL', 'model_checking'))
     try:
         if a.replay:
-            rc = mod.replay(ctx, a.replay)
-            ctx.abort()
-            return rc
+            if hasattr(mod, 'replay_record'):
+                rc = mod.replay_record(ctx, a.replay)
+                ctx.abort()
+                return rc
+            return generic_replay(mod, ctx, a.replay)
         if a.selftest:
             rc = mod.selftest(ctx)
             ctx.abort()
@@ -42,12 +69,13 @@ def main():
     except MachineryError as e:
         ctx.abort()
         print('MACHINERY-ERROR property=%s: %s' % (a.prop, e))
-        return 2
+        # violations established (and printed) before the machinery failed stay violations
+        return 1 if ctx.violations else 2
     except Exception:
         ctx.abort()
         traceback.print_exc()
         print('MACHINERY-ERROR property=%s: unexpected exception in the harness' % a.prop)
-        return 2
+        return 1 if ctx.violations else 2
 
 
 if __name__ == '__main__':
